@@ -62,7 +62,7 @@ CHECKS["C09"] = {
 CHECKS["C14"] = {
     "pkg": "./http",
     "level": "exploration",
-    "rule": ("A case is (content type from the six registered + unknown/parameterised/empty, request message, 0..5 handler messages (0..1 for Twirp), nil or an error "
+    "rule": ("A case is (content type from the six registered + unknown/parameterised/empty, request message, 0..5 handler messages (0..2 for Twirp, whose response carries one: a second send must be refused and the call must not be answered with a success holding part of the messages), nil or an error "
              "from the error grammar (arbitrary bytes incl. CR/LF/NUL/non-UTF-8/'%', drpcerr codes incl. 2^64-1 at wrap depth 0..6 through %w/errs/Cause/Unwrap/opaque layers, "
              "Twirp-style Code() string incl. unknown codes and codes with CR/LF, hostile shapes: nil Unwrap/Cause, cycles, Code methods of wrong arity/type, typed nil, 130-deep chains), "
              "0..4 metadata header entries (escaped k=v, key only, or raw strings over an alphabet weighted to '%', '=', hex and non-hex digits)). "
